@@ -49,6 +49,8 @@ def gen_config(r, index=None, subset_cycle=False, force_mode=None):
         for j in range(nl):
             b = r.randint(2, 8)
             lines.append({'blocks': b, 'frames': b, 'seed': r.randrange(1 << 30), 'amb': r.choice([0.2, 0.4, 0.7])})
+            if r.random() < 0.3:
+                lines[-1]['hsplit'] = r.choice([[10.0, 6.0], [8.0, 8.0], [14.0, 2.0]])
         pages.append({'id': pid, 'ext': r.choice(['.png', '.png', '.jpg', '.PNG']), 'lines': lines,
                       'regions': r.choice([1, 1, 2])})
     if mode in ('ocr', 'crop') and len(pages) >= 2 and r.random() < 0.12:
@@ -62,6 +64,7 @@ def gen_config(r, index=None, subset_cycle=False, force_mode=None):
     plan = {'world': 'pf', 'mode': mode, 'with_images': with_images, 'cfg': cfg, 'pages': pages,
             'outputs': outputs, 'procs': procs, 'ids_class': cls,
             'transcriptions_file': r.random() < 0.15,
+            'paths_in_config': [k for k in outputs if r.random() < 0.5] if r.random() < 0.25 else [],
             'clock': {'inc': [r.choice([0.001, 0.05, 2.0]) for _ in range(3)],
                       'jumps': {str(r.randint(0, 30)): r.choice([-3600.0, 86400.0, -1.5])} if r.random() < 0.3 else {}}}
     return plan
